@@ -21,13 +21,7 @@ def tags(r: Repo) -> Tags:
     return _TAGS
 
 
-# argument type specs by parameter name (preconditions of the functions under contract)
-PARAM_SPECS = {
-    "ctx": "SqlContext",
-    "current_table": "Table|None",
-    "new_table": "Table|None",
-    "criterion": "Term|EmptyCriterion",
-}
+from contracts.params import BY_FUNC, BY_NAME as PARAM_SPECS
 
 
 @dataclass
@@ -45,6 +39,8 @@ class Run:
 def param_spec(fi: FuncInfo, name: str, default: ast.expr | None, overrides: dict | None) -> str:
     if overrides and name in overrides:
         return overrides[name]
+    if fi.short in BY_FUNC and name in BY_FUNC[fi.short]:
+        return BY_FUNC[fi.short][name]
     spec = PARAM_SPECS.get(name, "any")
     if name == "ctx" and isinstance(default, ast.Constant) and default.value is None:
         spec = "SqlContext|None"
